@@ -25,3 +25,40 @@ theorem enumerate_one {α} (l : List α) (s st : Int) :
   simp only [enumerate, List.append_nil]
 
 end OV.Index
+
+namespace OV.Index
+
+theorem enumerate_drop {α} (l : List α) (k n : Nat) (h : k + n = l.length) :
+    enumerate l (k : Int) 1 n = l.drop k := by
+  induction n generalizing k with
+  | zero =>
+    have : k = l.length := by omega
+    subst this; simp [enumerate]
+  | succ n ih =>
+    have hk : k < l.length := by omega
+    have h0 : (0 : Int) ≤ (k : Int) := by omega
+    have hcast : ((k : Int) + 1) = ((k + 1 : Nat) : Int) := by omega
+    simp only [enumerate, h0, if_true, Int.toNat_natCast]
+    rw [hcast, ih (k + 1) (by omega)]
+    rw [List.getElem?_eq_getElem hk]
+    simp only [Option.toList_some, List.singleton_append]
+    exact (List.drop_eq_getElem_cons hk).symm
+
+theorem pySliceList_full {α} (l : List α) : pySliceList l none none 1 = l := by
+  unfold pySliceList pyAdjust sliceLen
+  have h1 : ¬ ((1 : Int) < 0) := by decide
+  have h2 : (1 : Int) > 0 := by decide
+  simp only [h1, h2, if_true, if_false]
+  by_cases hl : (0 : Int) < (l.length : Int)
+  · simp only [hl, if_true]
+    have : ((l.length : Int) - 0 - 1) / 1 + 1 = (l.length : Int) := by omega
+    rw [this, Int.toNat_natCast]
+    have := enumerate_drop l 0 l.length (by omega)
+    simpa using this
+  · have : l = [] := by
+      cases l with
+      | nil => rfl
+      | cons a t => exact absurd (by simp only [List.length_cons]; omega) hl
+    subst this; simp [enumerate]
+
+end OV.Index
